@@ -25,6 +25,14 @@ def legality (j : Json) : Except String Json := do
     let r3 := key.length == 1 && staticAfterFlat (key.headD "") ops orig
     return Json.mkObj [("reject", r1 || r2.isSome || r3), ("nway_after_dyn", r1),
                        ("flatten", match r2 with | some e => Json.str (reprStr e) | none => Json.null), ("static_after_flatten", r3)]
+  | "undeclared" =>
+    return Json.mkObj [("reject", undeclGuard (← strList (← fld j "declared")) (← strList (← fld j "used")))]
+  | "config" =>
+    let es ← (← HF.arr (← fld j "einsums")).toList.mapM fun e => do
+      (← HF.arr e).toList.mapM fun b => match b with
+        | .bool x => pure x
+        | _ => throw "bool expected"
+    return Json.mkObj [("reject", configGuard es)]
   | k => throw s!"unknown legality kind {k}"
 
 end Driver
